@@ -102,7 +102,7 @@ pub fn checks(tier: Tier) -> Vec<Check> {
     vec![Check {
         name: "C07.x25519-model".into(),
         strategy: strategy(),
-        cases: tier.scale(20_000, 40),
+        cases: tier.scale(60_000, 20),
         exec: Box::new(crate::ops::exec),
         oracle: Box::new(crate::mops::oracle),
         classify: Box::new(classify),
